@@ -1013,7 +1013,7 @@ func (s *Sim) genEvmTx(deploy bool) *TxSpec {
 		s.pending = append(s.pending, t2, t3)
 		return t1
 	}
-	if r.Intn(9) == 0 {
+	if r.Intn(5) == 0 {
 		// a call straight to a precompiled contract (addresses 1..9) with short, odd-sized or empty input
 		pc := make([]byte, 20)
 		pc[19] = byte(1 + r.Intn(9))
